@@ -12,34 +12,34 @@ open SV.Binary SV.BinaryM
 theorem bytesToWord_wordToBytes (w : BitVec 64) :
     bytesToWord (w.setWidth 8) ((w >>> 8).setWidth 8) ((w >>> 16).setWidth 8) ((w >>> 24).setWidth 8)
       ((w >>> 32).setWidth 8) ((w >>> 40).setWidth 8) ((w >>> 48).setWidth 8) ((w >>> 56).setWidth 8) = w := by
-  unfold bytesToWord; bv_decide
+  unfold bytesToWord; bv_decide (timeout := 300)
 
 theorem wordToBytes_bytesToWord (b0 b1 b2 b3 b4 b5 b6 b7 : Byte) :
     wordToBytes (bytesToWord b0 b1 b2 b3 b4 b5 b6 b7) = [b0, b1, b2, b3, b4, b5, b6, b7] := by
   unfold wordToBytes bytesToWord
   have h0 : (b0.setWidth 64 ||| b1.setWidth 64 <<< 8 ||| b2.setWidth 64 <<< 16 ||| b3.setWidth 64 <<< 24 |||
-      b4.setWidth 64 <<< 32 ||| b5.setWidth 64 <<< 40 ||| b6.setWidth 64 <<< 48 ||| b7.setWidth 64 <<< 56).setWidth 8 = b0 := by bv_decide
+      b4.setWidth 64 <<< 32 ||| b5.setWidth 64 <<< 40 ||| b6.setWidth 64 <<< 48 ||| b7.setWidth 64 <<< 56).setWidth 8 = b0 := by bv_decide (timeout := 300)
   have h1 : ((b0.setWidth 64 ||| b1.setWidth 64 <<< 8 ||| b2.setWidth 64 <<< 16 ||| b3.setWidth 64 <<< 24 |||
-      b4.setWidth 64 <<< 32 ||| b5.setWidth 64 <<< 40 ||| b6.setWidth 64 <<< 48 ||| b7.setWidth 64 <<< 56) >>> 8).setWidth 8 = b1 := by bv_decide
+      b4.setWidth 64 <<< 32 ||| b5.setWidth 64 <<< 40 ||| b6.setWidth 64 <<< 48 ||| b7.setWidth 64 <<< 56) >>> 8).setWidth 8 = b1 := by bv_decide (timeout := 300)
   have h2 : ((b0.setWidth 64 ||| b1.setWidth 64 <<< 8 ||| b2.setWidth 64 <<< 16 ||| b3.setWidth 64 <<< 24 |||
-      b4.setWidth 64 <<< 32 ||| b5.setWidth 64 <<< 40 ||| b6.setWidth 64 <<< 48 ||| b7.setWidth 64 <<< 56) >>> 16).setWidth 8 = b2 := by bv_decide
+      b4.setWidth 64 <<< 32 ||| b5.setWidth 64 <<< 40 ||| b6.setWidth 64 <<< 48 ||| b7.setWidth 64 <<< 56) >>> 16).setWidth 8 = b2 := by bv_decide (timeout := 300)
   have h3 : ((b0.setWidth 64 ||| b1.setWidth 64 <<< 8 ||| b2.setWidth 64 <<< 16 ||| b3.setWidth 64 <<< 24 |||
-      b4.setWidth 64 <<< 32 ||| b5.setWidth 64 <<< 40 ||| b6.setWidth 64 <<< 48 ||| b7.setWidth 64 <<< 56) >>> 24).setWidth 8 = b3 := by bv_decide
+      b4.setWidth 64 <<< 32 ||| b5.setWidth 64 <<< 40 ||| b6.setWidth 64 <<< 48 ||| b7.setWidth 64 <<< 56) >>> 24).setWidth 8 = b3 := by bv_decide (timeout := 300)
   have h4 : ((b0.setWidth 64 ||| b1.setWidth 64 <<< 8 ||| b2.setWidth 64 <<< 16 ||| b3.setWidth 64 <<< 24 |||
-      b4.setWidth 64 <<< 32 ||| b5.setWidth 64 <<< 40 ||| b6.setWidth 64 <<< 48 ||| b7.setWidth 64 <<< 56) >>> 32).setWidth 8 = b4 := by bv_decide
+      b4.setWidth 64 <<< 32 ||| b5.setWidth 64 <<< 40 ||| b6.setWidth 64 <<< 48 ||| b7.setWidth 64 <<< 56) >>> 32).setWidth 8 = b4 := by bv_decide (timeout := 300)
   have h5 : ((b0.setWidth 64 ||| b1.setWidth 64 <<< 8 ||| b2.setWidth 64 <<< 16 ||| b3.setWidth 64 <<< 24 |||
-      b4.setWidth 64 <<< 32 ||| b5.setWidth 64 <<< 40 ||| b6.setWidth 64 <<< 48 ||| b7.setWidth 64 <<< 56) >>> 40).setWidth 8 = b5 := by bv_decide
+      b4.setWidth 64 <<< 32 ||| b5.setWidth 64 <<< 40 ||| b6.setWidth 64 <<< 48 ||| b7.setWidth 64 <<< 56) >>> 40).setWidth 8 = b5 := by bv_decide (timeout := 300)
   have h6 : ((b0.setWidth 64 ||| b1.setWidth 64 <<< 8 ||| b2.setWidth 64 <<< 16 ||| b3.setWidth 64 <<< 24 |||
-      b4.setWidth 64 <<< 32 ||| b5.setWidth 64 <<< 40 ||| b6.setWidth 64 <<< 48 ||| b7.setWidth 64 <<< 56) >>> 48).setWidth 8 = b6 := by bv_decide
+      b4.setWidth 64 <<< 32 ||| b5.setWidth 64 <<< 40 ||| b6.setWidth 64 <<< 48 ||| b7.setWidth 64 <<< 56) >>> 48).setWidth 8 = b6 := by bv_decide (timeout := 300)
   have h7 : ((b0.setWidth 64 ||| b1.setWidth 64 <<< 8 ||| b2.setWidth 64 <<< 16 ||| b3.setWidth 64 <<< 24 |||
-      b4.setWidth 64 <<< 32 ||| b5.setWidth 64 <<< 40 ||| b6.setWidth 64 <<< 48 ||| b7.setWidth 64 <<< 56) >>> 56).setWidth 8 = b7 := by bv_decide
+      b4.setWidth 64 <<< 32 ||| b5.setWidth 64 <<< 40 ||| b6.setWidth 64 <<< 48 ||| b7.setWidth 64 <<< 56) >>> 56).setWidth 8 = b7 := by bv_decide (timeout := 300)
   rw [h0, h1, h2, h3, h4, h5, h6, h7]
 
 /-- OR of the shifted bytes = Horner sum `Σ bᵢ·256^i` (mod 2^64). -/
 theorem bytesToWord_eq_leWord (b0 b1 b2 b3 b4 b5 b6 b7 : Byte) :
     bytesToWord b0 b1 b2 b3 b4 b5 b6 b7 = leWord [b0, b1, b2, b3, b4, b5, b6, b7] := by
   simp only [leWord, List.foldr, bytesToWord]
-  bv_decide
+  bv_decide (timeout := 300)
 
 /-- Shift-and-truncate byte extraction = `⌊w / 256^j⌋ mod 256`. -/
 theorem wordToBytes_eq_leBytes (w : Word) : wordToBytes w = leBytes w := by
